@@ -159,6 +159,18 @@ pub fn run(out: &mut Out, thorough: bool, seed: u64, _extra: &[String]) {
                     }
                 }
                 if lvl == 0 { break; }
+                // moving down WITHOUT rescaling keeps the scale: it is refused exactly when the scale does not fit the modulus of the TARGET level
+                if let Some(nd) = cd.next_context_data() {
+                    let tbn = nd.total_coeff_modulus_bit_count() as i32;
+                    for e in [tbn - 2, tbn - 1, tbn, tbn + 1] {
+                        if e >= tbl { continue; }
+                        let mut x = cur.clone(); x.set_scale(2f64.powi(e));
+                        for (form, nm) in [(0, "next"), (1, "to")] {
+                            let acc = std::panic::catch_unwind(std::panic::AssertUnwindSafe(|| { let _ = if form == 0 { ev.mod_switch_to_next_new(&x) } else { ev.mod_switch_to_new(&x, nd.parms_id()) }; })).is_ok();
+                            out.case(&format!("ckks_scale_ok {} {}", x.scale().to_bits(), tbn), &format!("scale-bound-switch-{}-l{}-{}", nm, lvl, if e >= tbn { "over" } else { "under" }), || (acc as u8).to_string());
+                        }
+                    }
+                }
                 cur = match std::panic::catch_unwind(std::panic::AssertUnwindSafe(|| ev.mod_switch_to_next_new(&cur))) { Ok(c) => c, Err(_) => break };
             }
         }
